@@ -7,6 +7,13 @@ use std::ops::{Mul, MulAssign, Neg};
 use std::sync::Arc;
 use xplore::*;
 
+thread_local! {
+    /// allocation history of the operand handed to the operators (common::with_slack), set by the phase body
+    static SLACK: std::cell::Cell<usize> = const { std::cell::Cell::new(0) };
+}
+fn sl<T: Clone>(f: &Piecewise<T>) -> Piecewise<T> {
+    pw_with_slack(f, SLACK.with(|c| c.get()))
+}
 type Run = Box<dyn Fn(&[f64], f64) -> Result<(), (String, Value)> + Send + Sync>;
 pub struct PwCase {
     pub ty: String,
@@ -69,7 +76,7 @@ where
         run: Box::new(|ends, s| {
             let f = build::<T>(ends);
             let want: Vec<T> = f.segments.iter().map(|g| g.poly * s).collect();
-            let r = guard(|| f.clone() * s).map_err(|p| (format!("Piecewise `*` panicked: {p}"), json!(p)))?;
+            let r = guard(|| sl(&f) * s).map_err(|p| (format!("Piecewise `*` panicked: {p}"), json!(p)))?;
             compare("Piecewise * s", &r, ends, &want)?;
             let segs = guard(|| f.segments.iter().map(|g| *g * s).collect::<Vec<_>>()).map_err(|p| (format!("Segment `*` panicked: {p}"), json!(p)))?;
             compare("Segment * s", &Piecewise { segments: segs }, ends, &want)
@@ -85,7 +92,7 @@ where
         run: Box::new(|ends, s| {
             let f = build::<T>(ends);
             let want: Vec<T> = f.segments.iter().map(|g| { let mut p = g.poly; p *= s; p }).collect();
-            let mut r = f.clone();
+            let mut r = sl(&f);
             guard(|| r *= s).map_err(|p| (format!("Piecewise `*=` panicked: {p}"), json!(p)))?;
             compare("Piecewise *= s", &r, ends, &want)?;
             let mut r2 = f.clone();
@@ -106,7 +113,7 @@ where
         run: Box::new(|ends, _s| {
             let f = build::<T>(ends);
             let want: Vec<T> = f.segments.iter().map(|g| -g.poly).collect();
-            let r = guard(|| -f.clone()).map_err(|p| (format!("Piecewise neg panicked: {p}"), json!(p)))?;
+            let r = guard(|| -sl(&f)).map_err(|p| (format!("Piecewise neg panicked: {p}"), json!(p)))?;
             compare("-Piecewise", &r, ends, &want)
         }),
     }
@@ -120,7 +127,7 @@ where
         run: Box::new(|ends, s| {
             let f = build::<T>(ends);
             let want: Vec<T> = f.segments.iter().map(|g| { let mut p = g.poly; p.translate(s); p }).collect();
-            let mut r = f.clone();
+            let mut r = sl(&f);
             guard(|| r.translate(s)).map_err(|p| (format!("Piecewise::translate panicked: {p}"), json!(p)))?;
             compare("Piecewise::translate", &r, ends, &want)?;
             let mut r2 = f.clone();
@@ -206,6 +213,7 @@ pub fn check(thorough: bool, _seed: u64) -> Check {
             let len = if !full { 41 + k } else if k < 6 { [32768usize, 65536, 65537, 70003, 131074, 100001][k] } else { 41 + k - 6 };
             let ends: Vec<f64> = (0..len).map(|i| 0.5 + i as f64 * 0.25).collect();
             let s = if c.scalar { [-2.5, 1.0000000000000002][cx.choose(2)] } else { 0.0 };
+            SLACK.with(|m| m.set(if k % 3 == 0 { 1 } else if k % 3 == 1 { 2 } else { 0 }));
             cx.nontrivial();
             cx.evals(1);
             if cx.sampling() {
@@ -224,6 +232,8 @@ pub fn check(thorough: bool, _seed: u64) -> Check {
             let c = &cs2[unit];
             let ends = cx.pick(&sh[..]).clone();
             let s = if c.scalar { *cx.pick(&SCALARS) } else { 0.0 };
+            let slack = cx.choose(SLACK_MODES);
+            SLACK.with(|m| m.set(slack));
             if ends.len() >= 2 {
                 cx.nontrivial();
             }
@@ -236,7 +246,7 @@ pub fn check(thorough: bool, _seed: u64) -> Check {
         classes: vec![],
         bounds: json!({"cases": "every operator on Segment / Piecewise for every piece type it exists for (list under operator_cases)",
             "shapes": format!("end lists of length 1..{} over {{1..4}}, 1..3 over {{0.5,2,+inf}} and over {{-1,-0.0,+0.0,5e-324}}; 1..n for n=6,9 plain and with duplicate runs; breakpoints one ulp apart; tiny-domain lists (1e-18 scale, 1e-300 scale); plus {} end lists that are not non-decreasing or hold NaN / infinite ends (every sequence of length 2..4 over {{1,2,3}} with a descent, descending and shuffled lists of 9 and 12, NaN ends with two payloads) - structure level only", if thorough {5} else {4}, unordered),
-            "scalars": "{0,-0.0,1,-1,2,0.1,1e-300,1e300}", "value level": "every x of A(ends) through the real Piecewise::evaluate, compared on bits with the operated piece's own evaluate"}),
+            "scalars": "{0,-0.0,1,-1,2,0.1,1e-300,1e300}", "allocation history of the operand": "tight; spare capacity > length and > 4096 bytes; truncated from a vector 700 longer; grown by push; one spare slot", "value level": "every x of A(ends) through the real Piecewise::evaluate, compared on bits with the operated piece's own evaluate"}),
     };
     let mut extra = serde_json::Map::new();
     extra.insert("operator_cases".into(), json!(names));
